@@ -261,7 +261,7 @@ def main(tier, n=None):
     total = n or (200 if tier == "quick" else 3000)
     cases = []
     for i in range(total):
-        cases.append({"seed": rng.randrange(1 << 30), "nruns": rng.randint(1, 4), "task": rng.choice([None, None, "//:g", "//:dd", "//a/b:e3", "//:k", "//c-d:e4", "//:d1", "//a:c1"]),
+        cases.append({"seed": rng.randrange(1 << 30), "nruns": rng.randint(1, 4), "task": rng.choice([None, None, "//:g", "//:dd", "//a/b:e3", "//:k", "//c-d:e4", "//:d1", "//a:c1", "//c-d:solo", "//:plain"]),
                       "latest": rng.random() < 0.4, "out": rng.choice(["file", "dir", "default"]), "into": rng.choice(["clean", "clone"]), "git": rng.random() < 0.4,
                       "dangling": rng.random() < 0.25, "foreign": rng.random() < 0.35, "stale_archive_index": rng.random() < 0.3, "branch_switch": rng.random() < 0.4})
     cli.warm()
